@@ -24,7 +24,7 @@ fn space_for(tier: Tier) -> (Space, usize) {
             s.ast_range("FX", 1, 4, 32, 6).ast_range("HI", 1, 4, 32, 4).ast_range("DUP", 1, 4, 16, 4);
             s.ast_range("G", 1, 5, 64, 4).ast_range("BR", 1, 3, 64, 4).ast_range("BR3", 1, 5, 64, 4);
             // anchors and newlines, inputs long enough for three lines
-            s.ast_range("AN", 1, 4, 64, 5).ast_range("ALT3", 1, 5, 64, 4).ast_range("ANU", 1, 3, 64, 4).ast_range("OPTG", 1, 3, 32, 5).ast_range("QNA", 1, 4, 16, 11).ast_range("CLG", 1, 5, 32, 3).ast_range("ANL", 1, 3, 32, 6);
+            s.ast_range("AN", 1, 4, 64, 5).ast_range("ALT3", 1, 5, 64, 4).ast_range("ANU", 1, 3, 64, 4).ast_range("OPTG", 1, 3, 32, 5).ast_range("QNA", 1, 4, 16, 11).ast_range("CLG", 1, 5, 32, 3).ast_range("ANL", 1, 3, 32, 6).ast_range("EMPB", 1, 5, 32, 4);
             (s, 3)
         }
         Tier::Thorough => {
@@ -33,7 +33,7 @@ fn space_for(tier: Tier) -> (Space, usize) {
             s.ast_range("ALT", 1, 4, 32, 4);
             s.ast_range("FX", 1, 4, 32, 6).ast_range("HI", 1, 4, 32, 4).ast_range("DUP", 1, 4, 16, 4);
             s.ast_range("G", 1, 6, 64, 4).ast_range("BR", 1, 4, 64, 4).ast_range("BR3", 1, 5, 64, 4);
-            s.ast_range("AN", 1, 5, 64, 5).ast_range("ALT3", 1, 5, 64, 4).ast_range("ANU", 1, 4, 64, 4).ast_range("OPTG", 1, 5, 32, 4).ast_range("QNA", 1, 4, 16, 12).ast_range("CLG", 1, 5, 32, 4).ast_range("ANL", 1, 3, 32, 6);
+            s.ast_range("AN", 1, 5, 64, 5).ast_range("ALT3", 1, 5, 64, 4).ast_range("ANU", 1, 4, 64, 4).ast_range("OPTG", 1, 5, 32, 4).ast_range("QNA", 1, 4, 16, 12).ast_range("CLG", 1, 5, 32, 4).ast_range("ANL", 1, 3, 32, 6).ast_range("EMPB", 1, 5, 32, 4);
             // deeper / longer layers restricted to patterns without a quantifier over a
             // possibly-empty body and without nested quantifiers
             s.ast_range("K", 6, 6, 512, 203).ast_range("CL", 5, 5, 128, 203).ast_range("GC", 6, 6, 256, 204);
